@@ -59,7 +59,7 @@ namespace Edzed.Repeat
 
 /-- the `k`-th (0-based) send of a pending event, counting from its next deadline -/
 def nthSend (c : Cfg) (p : Pending) (k : Nat) : Sent :=
-  ⟨p.deadline + k * c.interval, c.etype, p.rep + (k + 1), outData c p.data (p.rep + (k + 1))⟩
+  ⟨p.deadline + k * c.interval, c.etype, p.rep + (k + 1), outData c p.data (p.rep + (k + 1)), .ok⟩
 
 def sends (c : Cfg) (p : Pending) (n : Nat) : List Sent := (List.range n).map (nthSend c p)
 
@@ -70,7 +70,8 @@ def Pending.shift (c : Cfg) (p : Pending) (n : Nat) : Pending :=
 /-- the state after `n ≥ 1` timeouts of the pending event `p` -/
 def after (c : Cfg) (s : State) (p : Pending) (n : Nat) : State :=
   if n = 0 then s else
-  { s with out := p.rep + n, cur := if repeating c (p.rep + n) then some (p.shift c n) else none }
+  { s with out := p.rep + n,
+           cur := if !s.stopped && repeating c (p.rep + n) then some (p.shift c n) else none }
 
 theorem nthSend_succ (c : Cfg) (p : Pending) (k : Nat) :
     nthSend c p (k + 1) = nthSend c (p.shift c 1) k := by
@@ -96,12 +97,56 @@ theorem shift_shift (c : Cfg) (p : Pending) (n : Nat) :
   have h2 : p.rep + 1 + n = p.rep + (n + 1) := by omega
   rw [h1, h2]
 
-theorem fire_eq (c : Cfg) (s : State) (p : Pending) :
+/-! ### facts about one timeout, whatever the destination answers -/
+
+theorem fire_snd (c : Cfg) (s : State) (p : Pending) :
+    (fire c s p).2 = ⟨p.deadline, c.etype, p.rep + 1, outData c p.data (p.rep + 1), s.answer⟩ := by
+  unfold fire; split <;> rfl
+
+theorem fire_out (c : Cfg) (s : State) (p : Pending) : (fire c s p).1.out = p.rep + 1 := by
+  unfold fire; split <;> rfl
+
+theorem fire_resp (c : Cfg) (s : State) (p : Pending) : (fire c s p).1.resp = s.resp.tail := by
+  unfold fire; split <;> rfl
+
+theorem fire_cur_data (c : Cfg) (s : State) (p q : Pending) (h : (fire c s p).1.cur = some q) :
+    q.data = p.data := by
+  unfold fire at h
+  split at h
+  · simp only at h
+    split at h
+    · cases h; rfl
+    · cases h
+  · cases h
+
+/-- a refused repetition ends the simulation -/
+theorem fire_refused (c : Cfg) (s : State) (p : Pending) (h : s.answer ≠ .ok) :
+    (fire c s p).1.stopped = true ∧ (fire c s p).1.cur = none := by
+  unfold fire
+  split
+  · next e => exact absurd e h
+  · exact ⟨rfl, rfl⟩
+
+theorem answer_acc (s : State) (h : s.resp = []) : s.answer = .ok := by
+  simp [State.answer, h]
+
+/-- with an accepting destination -/
+theorem fire_eq (c : Cfg) (s : State) (p : Pending) (h : s.resp = []) :
     fire c s p = (after c s p 1, nthSend c p 0) := by
-  simp [fire, after, nthSend, Pending.shift]
+  have ha := answer_acc s h
+  unfold fire
+  rw [ha]
+  simp [after, nthSend, Pending.shift, h]
+
+theorem after_stopped (c : Cfg) (s : State) (p : Pending) (n : Nat) :
+    (after c s p n).stopped = s.stopped := by
+  unfold after; split <;> rfl
+
+theorem after_resp (c : Cfg) (s : State) (p : Pending) (n : Nat) : (after c s p n).resp = s.resp := by
+  unfold after; split <;> rfl
 
 theorem advanceFuel_spec (c : Cfg) (t : Nat) :
-    ∀ (n fuel : Nat) (s : State) (p : Pending), s.cur = some p → n ≤ fuel →
+    ∀ (n fuel : Nat) (s : State) (p : Pending), s.resp = [] → s.stopped = false → s.cur = some p → n ≤ fuel →
       (∀ k, k < n → p.deadline + k * c.interval ≤ t) →
       (∀ k, 1 ≤ k → k < n → repeating c (p.rep + k) = true) →
       ((0 < n ∧ repeating c (p.rep + n) = false) ∨ t < p.deadline + n * c.interval) →
@@ -109,7 +154,7 @@ theorem advanceFuel_spec (c : Cfg) (t : Nat) :
   intro n
   induction n with
   | zero =>
-    intro fuel s p hs _ _ _ hstop
+    intro fuel s p _ _ hs _ _ _ hstop
     have hlt : t < p.deadline := by
       rcases hstop with h | h
       · exact absurd h.1 (Nat.lt_irrefl 0)
@@ -121,17 +166,18 @@ theorem advanceFuel_spec (c : Cfg) (t : Nat) :
       rw [if_neg (by omega)]
       simp [after, sends]
   | succ n ih =>
-    intro fuel s p hs hfuel htime hrep hstop
+    intro fuel s p hacc hrun hs hfuel htime hrep hstop
     cases fuel with
     | zero => omega
     | succ f =>
       have h0 : p.deadline ≤ t := by simpa using htime 0 (by omega)
       simp only [advanceFuel, hs]
-      rw [if_pos h0, fire_eq, sends_succ]
+      rw [if_pos h0, fire_eq c s p hacc, sends_succ]
       by_cases hr : repeating c (p.rep + 1) = true
       · -- still repeating: the induction hypothesis applies to the shifted event
-        have hcur : (after c s p 1).cur = some (p.shift c 1) := by simp [after, hr]
-        have := ih f (after c s p 1) (p.shift c 1) hcur (by omega)
+        have hcur : (after c s p 1).cur = some (p.shift c 1) := by simp [after, hr, hrun]
+        have := ih f (after c s p 1) (p.shift c 1) (by rw [after_resp]; exact hacc)
+          (by rw [after_stopped]; exact hrun) hcur (by omega)
           (by
             intro k hk
             have := htime (k + 1) (by omega)
@@ -181,22 +227,31 @@ theorem advanceFuel_none (c : Cfg) (fuel : Nat) (s : State) (t : Nat) (h : s.cur
 theorem advance_none (c : Cfg) (s : State) (t : Nat) (h : s.cur = none) : advance c s t = (s, []) :=
   advanceFuel_none c _ s t h
 
-theorem advanceFuel_stopped (c : Cfg) (t : Nat) : ∀ (fuel : Nat) (s : State),
-    (advanceFuel c fuel s t).1.stopped = s.stopped := by
+/-- with an accepting destination time alone never stops the block, and the destination stays accepting -/
+theorem advanceFuel_acc (c : Cfg) (t : Nat) : ∀ (fuel : Nat) (s : State), s.resp = [] →
+    (advanceFuel c fuel s t).1.stopped = s.stopped ∧ (advanceFuel c fuel s t).1.resp = [] := by
   intro fuel
   induction fuel with
-  | zero => intro s; rfl
+  | zero => intro s h; exact ⟨rfl, h⟩
   | succ f ih =>
-    intro s
+    intro s h
     simp only [advanceFuel]
     split
-    · rfl
-    · split
-      · rw [ih]; simp [fire]
-      · rfl
+    · exact ⟨rfl, h⟩
+    · next p hp =>
+      split
+      · rw [fire_eq c s p h]
+        have := ih (after c s p 1) (by rw [after_resp]; exact h)
+        rw [after_stopped] at this
+        exact this
+      · exact ⟨rfl, h⟩
 
-theorem advance_stopped (c : Cfg) (s : State) (t : Nat) : (advance c s t).1.stopped = s.stopped :=
-  advanceFuel_stopped c t _ s
+theorem advance_stopped (c : Cfg) (s : State) (t : Nat) (h : s.resp = []) :
+    (advance c s t).1.stopped = s.stopped :=
+  (advanceFuel_acc c t _ s h).1
+
+theorem advance_resp (c : Cfg) (s : State) (t : Nat) (h : s.resp = []) : (advance c s t).1.resp = [] :=
+  (advanceFuel_acc c t _ s h).2
 
 /-- nothing is sent with a time stamp beyond the horizon -/
 theorem advanceFuel_times (c : Cfg) (t : Nat) : ∀ (fuel : Nat) (s : State),
@@ -214,7 +269,7 @@ theorem advanceFuel_times (c : Cfg) (t : Nat) : ∀ (fuel : Nat) (s : State),
       · next hd =>
         simp only [List.mem_cons] at hx
         rcases hx with h | h
-        · subst h; simpa [fire] using hd
+        · subst h; rw [fire_snd]; exact hd
         · exact ih _ x h
       · simp at hx
 
@@ -231,7 +286,7 @@ theorem advanceFuel_etype (c : Cfg) (t : Nat) : ∀ (fuel : Nat) (s : State),
     · split at hx
       · simp only [List.mem_cons] at hx
         rcases hx with h | h
-        · subst h; rfl
+        · subst h; rw [fire_snd]
         · exact ih _ x h
       · simp at hx
 
@@ -262,17 +317,17 @@ theorem advanceFuel_out (c : Cfg) (t : Nat) : ∀ (fuel : Nat) (s : State),
     split
     · rfl
     · split
-      · rw [ih]; simp [lastRep, fire]
+      · rw [ih, fire_out]; simp [lastRep, fire_snd]
       · rfl
 
 /-- `t + 1` steps are enough: the closed form of `advance` -/
 theorem advance_spec (c : Cfg) (hI : 0 < c.interval) (t n : Nat) (s : State) (p : Pending)
-    (hs : s.cur = some p)
+    (hacc : s.resp = []) (hrun : s.stopped = false) (hs : s.cur = some p)
     (htime : ∀ k, k < n → p.deadline + k * c.interval ≤ t)
     (hrep : ∀ k, 1 ≤ k → k < n → repeating c (p.rep + k) = true)
     (hstop : (0 < n ∧ repeating c (p.rep + n) = false) ∨ t < p.deadline + n * c.interval) :
     advance c s t = (after c s p n, sends c p n) := by
-  apply advanceFuel_spec c t n (t + 1) s p hs _ htime hrep hstop
+  apply advanceFuel_spec c t n (t + 1) s p hacc hrun hs _ htime hrep hstop
   cases n with
   | zero => omega
   | succ m =>
@@ -289,12 +344,36 @@ theorem run_append (c : Cfg) (s : State) (ops ops' : List Op) :
   | nil => simp [run]
   | cons op ops ih => simp [run, ih, List.append_assoc]
 
-theorem arrive_match (c : Cfg) (s : State) (t : Nat) (data : Data) :
+/-- a matching event with an accepting destination -/
+theorem arrive_match (c : Cfg) (s : State) (t : Nat) (data : Data) (h : s.resp = []) :
     arrive c s t c.etype data =
       ({ s with out := 0,
                 cur := if !s.stopped && repeating c 0 then some ⟨withOrig data, 0, t + c.interval⟩ else none },
-       [⟨t, c.etype, 0, outData c (withOrig data) 0⟩]) := by
-  simp [arrive]
+       [⟨t, c.etype, 0, outData c (withOrig data) 0, .ok⟩]) := by
+  simp [arrive, answer_acc s h, h]
+
+/-- a matching event whose forwarding the destination refuses with EdzedUnknownEvent: the output
+    is 0, one answer is consumed, NOTHING ELSE changes – in particular nothing is queued -/
+theorem arrive_unknown (c : Cfg) (s : State) (t : Nat) (data : Data) (h : s.answer = .unknown) :
+    arrive c s t c.etype data =
+      ({ s with out := 0, resp := s.resp.tail },
+       [⟨t, c.etype, 0, outData c (withOrig data) 0, .unknown⟩]) := by
+  simp [arrive, h]
+
+/-- a matching event is offered to the destination, stamped `t`, `repeat=0` – and that is all the
+    handler sends -/
+theorem arrive_head (c : Cfg) (s : State) (t : Nat) (data : Data) :
+    (arrive c s t c.etype data).2 = [⟨t, c.etype, 0, outData c (withOrig data) 0, s.answer⟩] := by
+  unfold arrive
+  simp only [bne_self_eq_false, Bool.false_eq_true, if_false]
+  split <;> rfl
+
+theorem arrive_out (c : Cfg) (s : State) (t : Nat) (etype : String) (data : Data) :
+    (arrive c s t etype data).1.out = lastRep (arrive c s t etype data).2 s.out := by
+  unfold arrive
+  split
+  · rfl
+  · split <;> simp [lastRep]
 
 theorem arrive_other (c : Cfg) (s : State) (t : Nat) (etype : String) (data : Data) (h : etype ≠ c.etype) :
     arrive c s t etype data = (s, []) := by
@@ -308,10 +387,9 @@ theorem step_out (c : Cfg) (s : State) (op : Op) :
   | stop => rfl
   | event t pl e d =>
     simp only [step, event]
-    by_cases h : e = c.etype
-    · subst h; rw [arrive_match]; simp [lastRep]
-    · rw [arrive_other _ _ _ _ _ h, List.append_nil]
-      exact advanceFuel_out c _ _ s
+    rw [lastRep_append, arrive_out]
+    congr 1
+    exact advanceFuel_out c _ _ s
 
 theorem run_out (c : Cfg) (s : State) (ops : List Op) :
     (run c s ops).1.out = lastRep (run c s ops).2 s.out := by
@@ -323,37 +401,45 @@ theorem run_out (c : Cfg) (s : State) (ops : List Op) :
 
 /-- what a stopped block still does with an operation: forward a matching event -/
 def forwardOf (c : Cfg) : Op → List Sent
-  | .event t _ e d => if e = c.etype then [⟨t, c.etype, 0, outData c (withOrig d) 0⟩] else []
+  | .event t _ e d => if e = c.etype then [⟨t, c.etype, 0, outData c (withOrig d) 0, .ok⟩] else []
   | _ => []
 
-theorem step_stopped (c : Cfg) (s : State) (op : Op) (h1 : s.stopped = true) (h2 : s.cur = none) :
-    (step c s op).1.stopped = true ∧ (step c s op).1.cur = none ∧ (step c s op).2 = forwardOf c op := by
+theorem step_stopped (c : Cfg) (s : State) (op : Op) (h1 : s.stopped = true) (h2 : s.cur = none)
+    (h3 : s.resp = []) :
+    (step c s op).1.stopped = true ∧ (step c s op).1.cur = none ∧ (step c s op).1.resp = [] ∧
+      (step c s op).2 = forwardOf c op := by
   cases op with
-  | advance t => simp [step, advance_none c s t h2, h1, h2, forwardOf]
-  | stop => simp [step, stop, forwardOf]
+  | advance t => simp [step, advance_none c s t h2, h1, h2, h3, forwardOf]
+  | stop => simp [step, stop, forwardOf, h3]
   | event t pl e d =>
     simp only [step, event, advance_none c s _ h2, forwardOf]
     by_cases h : e = c.etype
-    · subst h; rw [arrive_match]; simp [h1]
-    · rw [arrive_other _ _ _ _ _ h]; simp [h1, h2, h]
+    · subst h; rw [arrive_match _ _ _ _ h3]; simp [h1, h3]
+    · rw [arrive_other _ _ _ _ _ h]; simp [h1, h2, h3, h]
 
-theorem run_stopped (c : Cfg) (s : State) (ops : List Op) (h1 : s.stopped = true) (h2 : s.cur = none) :
+theorem run_stopped (c : Cfg) (s : State) (ops : List Op) (h1 : s.stopped = true) (h2 : s.cur = none)
+    (h3 : s.resp = []) :
     (run c s ops).2 = ops.flatMap (forwardOf c) := by
   induction ops generalizing s with
   | nil => rfl
   | cons op ops ih =>
-    obtain ⟨a, b, e⟩ := step_stopped c s op h1 h2
-    simp only [run, List.flatMap_cons, ih _ a b, e]
+    obtain ⟨a, b, r, e⟩ := step_stopped c s op h1 h2 h3
+    simp only [run, List.flatMap_cons, ih _ a b r, e]
 
 /-! ### chains -/
 
+/-- a matching event is offered to the destination in the same step (which answers `a`) -/
 theorem event_forward_mem (c : Cfg) (s : State) (t : Nat) (pl : Placement) (data : Data) :
-    (⟨t, c.etype, 0, outData c (withOrig data) 0⟩ : Sent) ∈ (event c s t pl c.etype data).2 := by
-  simp [event, arrive_match]
+    ∃ a, (⟨t, c.etype, 0, outData c (withOrig data) 0, a⟩ : Sent) ∈ (event c s t pl c.etype data).2 := by
+  have h := arrive_head c (advance c s (pl.horizon t)).1 t data
+  refine ⟨(advance c s (pl.horizon t)).1.answer, ?_⟩
+  simp only [event, h]
+  exact List.mem_append_right _ (List.mem_cons_self ..)
 
 theorem feed_forwards (c2 : Cfg) : ∀ (xs : List Sent) (s : State) (pl : Placement) (fl : List Bool)
     (r : State × List Sent × List Bool), feed c2 s xs pl fl = some r →
-    ∀ x ∈ xs, x.etype = c2.etype → (⟨x.t, c2.etype, 0, outData c2 (withOrig x.data) 0⟩ : Sent) ∈ r.2.1 := by
+    ∀ x ∈ xs, x.etype = c2.etype →
+      ∃ a, (⟨x.t, c2.etype, 0, outData c2 (withOrig x.data) 0, a⟩ : Sent) ∈ r.2.1 := by
   intro xs
   induction xs with
   | nil => intro s pl fl r _ x hx; cases hx
@@ -366,18 +452,22 @@ theorem feed_forwards (c2 : Cfg) : ∀ (xs : List Sent) (s : State) (pl : Placem
       obtain ⟨q, hq, rfl⟩ := hr
       rcases List.mem_cons.mp hx with h | h
       · subst h
-        apply List.mem_append_left
-        rw [hety]; exact event_forward_mem c2 s _ pl _
-      · exact List.mem_append_right _ (ih _ _ _ _ hq x h hety)
+        rw [hety]
+        obtain ⟨a, ha⟩ := event_forward_mem c2 s x.t pl x.data
+        exact ⟨a, List.mem_append_left _ ha⟩
+      · obtain ⟨a, ha⟩ := ih _ _ _ _ hq x h hety
+        exact ⟨a, List.mem_append_right _ ha⟩
     · split at hr
       · cases hr
       · simp only [Option.map_eq_some_iff] at hr
         obtain ⟨q, hq, rfl⟩ := hr
         rcases List.mem_cons.mp hx with h | h
         · subst h
-          apply List.mem_append_left
-          rw [hety]; exact event_forward_mem c2 s _ _ _
-        · exact List.mem_append_right _ (ih _ _ _ _ hq x h hety)
+          rw [hety]
+          obtain ⟨a, ha⟩ := event_forward_mem c2 s x.t _ x.data
+          exact ⟨a, List.mem_append_left _ ha⟩
+        · obtain ⟨a, ha⟩ := ih _ _ _ _ hq x h hety
+          exact ⟨a, List.mem_append_right _ ha⟩
 
 end Edzed.Repeat
 
@@ -385,17 +475,18 @@ namespace Edzed.Repeat
 
 /-! ### the state right after an arrival; shape of everything that is sent -/
 
-theorem event_state (c : Cfg) (s : State) (t : Nat) (pl : Placement) (data : Data) :
+theorem event_state (c : Cfg) (s : State) (t : Nat) (pl : Placement) (data : Data) (h : s.resp = []) :
     (event c s t pl c.etype data).1 =
       { out := 0,
         cur := if !s.stopped && repeating c 0 then some ⟨withOrig data, 0, t + c.interval⟩ else none,
-        stopped := s.stopped } := by
-  simp only [event, arrive_match, advance_stopped]
+        stopped := s.stopped, resp := [] } := by
+  simp only [event, arrive_match _ _ _ _ (advance_resp c s _ h), advance_stopped c s _ h,
+    advance_resp c s _ h]
 
-theorem event_sends (c : Cfg) (s : State) (t : Nat) (pl : Placement) (data : Data) :
+theorem event_sends (c : Cfg) (s : State) (t : Nat) (pl : Placement) (data : Data) (h : s.resp = []) :
     (event c s t pl c.etype data).2 =
-      (advance c s (pl.horizon t)).2 ++ [⟨t, c.etype, 0, outData c (withOrig data) 0⟩] := by
-  simp only [event, arrive_match]
+      (advance c s (pl.horizon t)).2 ++ [⟨t, c.etype, 0, outData c (withOrig data) 0, .ok⟩] := by
+  simp only [event, arrive_match _ _ _ _ (advance_resp c s _ h)]
 
 /-- all data the operations deliver -/
 def eventData : List Op → List Data
@@ -425,17 +516,40 @@ theorem advanceFuel_shape (c : Cfg) (D : List Data) (t : Nat) : ∀ (fuel : Nat)
       · obtain ⟨d, hd, hpd⟩ := h p hp
         have hinv : Inv D (fire c s p).1 := by
           intro q hq
-          simp only [fire] at hq
-          split at hq
-          · cases hq; exact ⟨d, hd, hpd⟩
-          · cases hq
+          exact ⟨d, hd, by rw [fire_cur_data c s p q hq, hpd]⟩
         obtain ⟨a, b⟩ := ih _ hinv
         refine ⟨a, ?_⟩
         intro x hx
         rcases List.mem_cons.mp hx with e | e
-        · subst e; exact ⟨rfl, d, hd, by simp [fire, hpd]⟩
+        · subst e; rw [fire_snd]; exact ⟨rfl, d, hd, by simp [hpd]⟩
         · exact b x e
       · exact ⟨h, by simp⟩
+
+theorem arrive_shape (c : Cfg) (D : List Data) (s : State) (t : Nat) (e : String) (d : Data)
+    (h : Inv D s) (hd : d ∈ D) :
+    Inv D (arrive c s t e d).1 ∧ ∀ x ∈ (arrive c s t e d).2, Shape c D x := by
+  have hx : Shape c D ⟨t, c.etype, 0, outData c (withOrig d) 0, s.answer⟩ := ⟨rfl, d, hd, rfl⟩
+  have hnone : ∀ st : State, st.cur = none → Inv D st := fun st e q hq => by rw [e] at hq; cases hq
+  unfold arrive
+  split
+  · exact ⟨h, by simp⟩
+  · split
+    · refine ⟨?_, by simpa using hx⟩
+      intro q hq
+      simp only at hq
+      split at hq
+      · cases hq; exact ⟨d, hd, rfl⟩
+      · cases hq
+    · exact ⟨fun q hq => h q hq, by simpa using hx⟩
+    · refine ⟨?_, by simpa using hx⟩
+      intro q hq
+      simp only at hq
+      split at hq
+      · next p hp =>
+        split at hq
+        · cases hq; exact h q hp
+        · cases hq
+      · cases hq
 
 theorem step_shape (c : Cfg) (D : List Data) (s : State) (op : Op) (h : Inv D s)
     (hD : ∀ d ∈ eventData [op], d ∈ D) :
@@ -446,21 +560,13 @@ theorem step_shape (c : Cfg) (D : List Data) (s : State) (op : Op) (h : Inv D s)
   | event t pl e d =>
     have hd : d ∈ D := hD d (by simp [eventData])
     obtain ⟨a, b⟩ := advanceFuel_shape c D (pl.horizon t) (pl.horizon t + 1) s h
-    by_cases he : e = c.etype
-    · subst he
-      refine ⟨?_, ?_⟩
-      · intro p hp
-        simp only [step, event_state] at hp
-        split at hp
-        · cases hp; exact ⟨d, hd, rfl⟩
-        · cases hp
-      · intro x hx
-        simp only [step, event_sends, List.mem_append, List.mem_singleton] at hx
-        rcases hx with hx | hx
-        · exact b x hx
-        · subst hx; exact ⟨rfl, d, hd, rfl⟩
-    · simp only [step, event, arrive_other _ _ _ _ _ he, List.append_nil]
-      exact ⟨a, b⟩
+    obtain ⟨a', b'⟩ := arrive_shape c D (advance c s (pl.horizon t)).1 t e d a hd
+    refine ⟨a', ?_⟩
+    intro x hx
+    simp only [step, event, List.mem_append] at hx
+    rcases hx with hx | hx
+    · exact b x hx
+    · exact b' x hx
 
 theorem run_shape (c : Cfg) (D : List Data) : ∀ (ops : List Op) (s : State), Inv D s →
     (∀ d ∈ eventData ops, d ∈ D) → ∀ x ∈ (run c s ops).2, Shape c D x := by
